@@ -22,7 +22,7 @@ BEHAVIOURS = ["value", "value", "callresult", "none", "unserializable", "oversiz
 
 
 def plan(tier, seed):
-    n = 250 if tier == "quick" else 2000
+    n = 400 if tier == "quick" else 2000
     jobs = []
     for i, fw in enumerate(("twisted", "asyncio")):
         for k, kind in enumerate(("ws", "rs")):
